@@ -265,10 +265,8 @@ impl TryFrom<usize> for Val {
     fn try_from(num: usize) -> std::result::Result<Self, Self::Error> {
         match i16::try_from(num) {
             Ok(len) => Ok(Val::Integer(len)),
-            Err(_) => {
-                debug_assert!(false, "LEN VAL TOO BIG");
-                Err(error!(Overflow))
-            }
+            // reachable from BASIC: LEN or INSTR of a string expression longer than 32767
+            Err(_) => Err(error!(Overflow)),
         }
     }
 }
